@@ -7,7 +7,7 @@ from .. import gens
 
 TWO_PI = 2 * np.pi
 
-RULE = ("Cases: (stat) label vectors with K<=12 cycles of length 1..20 and -1 gaps anywhere x float values x "
+RULE = ("Cases: (stat) label vectors with K<=12 cycles of length 1..20 and -1 gaps anywhere (labels time-ordered, permuted, or re-appearing non-contiguously) x float values x "
         "funcs {mean,max,sum,len,first,range} x value dtype {float,int,bool} x out in {None,'samples'} x cycles given as vector / column; "
         "(align) monotone wrapped phases of 2-8 whole cycles of 8..400 samples x quantity g_c(phase) "
         "(linear, sin, cos2, cubic polynomial; optionally a different affine transform per cycle) x npoints "
@@ -43,6 +43,16 @@ def stat_case(draw):
     lab = np.concatenate(parts).astype(int)
     if lab.size == 0:
         lab = np.array([-1])
+    order = draw(st.sampled_from(['sorted', 'sorted', 'permuted', 'reappearing']))
+    if K >= 2 and order == 'permuted':          # any labelling: cycle numbers need not increase with time
+        perm = rng.permutation(K)
+        lab = np.where(lab >= 0, perm[np.clip(lab, 0, K - 1)], -1)
+    elif K >= 2 and order == 'reappearing':      # ... nor be contiguous: one label comes back later
+        a, b = rng.choice(K, 2, replace=False)
+        idx = np.where(lab == a)[0]
+        lab[idx[len(idx) // 2:]] = b if len(idx) > 1 else a
+        if not (lab == a).any():
+            lab[idx[0]] = a
     vals = np.round(rng.standard_normal(lab.size) * 10, 3)
     dt = draw(st.sampled_from(['float', 'float', 'int', 'bool']))
     if dt == 'int':
@@ -84,6 +94,8 @@ def oracle_stat(case, rec):
     rec.cls('func=' + case['func'])
     rec.cls('values=' + vals.dtype.kind)
     rec.cls('gaps' if (lab == -1).any() else 'nogaps')
+    nn = lab[lab >= 0]
+    rec.cls('labels-' + ('time-ordered' if np.all(np.diff(nn) >= 0) else 'not-time-ordered'))
     return K >= 2 and len(set(lens)) >= 2
 
 
